@@ -45,6 +45,10 @@ SUMMARY = {
 'c08m':'two cooperating edits spending the same byte of slack: roll retains max-1 bytes and the pre-roll flush goes one byte further',
 'c17m':'two cooperating edits: shared prefilter-effectiveness counters (only PossibleStartOfMatch candidates count) plus the packed prefilter returning PossibleStartOfMatch(span.start) for spans shorter than its minimum length: ~40 tiny searches switch the packed prefilter off for all clones, earliest(true) answers change',
 'c18m':'two cooperating edits: fill() defers an error that follows a partial fill to the next call, and the chunk iterator takes a short Ok(true) fill for EOF: the deferred error is never delivered',
+'c07n':'the roll is skipped when the last read left spare capacity, but the spare-capacity value is computed once before fill()s loop: short reads below the longest pattern followed by a read that exactly fills the buffer leave it full and unrolled - the next read gets an empty slice, taken for EOF',
+'c08n':'non-match chunks written with a single write(); the unwritten suffix is handed back by rewinding buffer_reported_pos and clearing the done flag: a short write on the final chunk makes the reader be polled again after it reported EOF',
+'c17n':'single-rare-byte prefilter keeps a shared last_scan_at hint read only by the in-loop prefilter call: sequentially always overwritten first, but a search suspended mid-way trusts the position stored by another thread and skips matches (pure interleaving defect)',
+'c18n':'roll bookkeeping deferred in a pending_roll field that the error path does not restore: two failed reads in a row on the same refill skip bytes / shift offsets / panic',
 'c18a':'fill returns Ok(true) instead of the error when it had already buffered bytes in the same call: one-shot read errors during the initial fill vanish',
 'c18b':'closure errors of kind Interrupted are retried by calling the closure again: error swallowed, partial output duplicated',
 'c18c':'fill commits its new end only after the loop: an error on a later read of one fill discards bytes accepted earlier; polling on shifts all later offsets',
